@@ -46,7 +46,20 @@ CHECKS = {
  "C17": ("4 C17", "bit-by-bit reference interleave vs ToZ/FromZ/MustToZ: equality, round trip, parent key, ok flag; all <=2-bit patterns and all 8-bit pairs at three shifts exhaustively, random pairs otherwise",
          "2^64 pairs cannot be enumerated",
          "runtime monitor: reference-model comparison"),
+ "C10": ("4 C10", "offline history checker over what fake targets received through the real processing.ProcessFeatures (unique feature ids, sequential model): exactly-once, no foreign feature, source order, geometry/attribute identity, tile matrix id; 6 speed plans x GOMAXPROCS 1/2/4/16; thorough under the race detector",
+         "schedules sampled, not enumerated; polygon function is a deterministic fake (10 % real SnapPolygon)",
+         "runtime monitor: history checker over event logs of fake targets"),
+ "C11": ("4 C11", "every pipeline run under the Go race detector; completion flags after a slow final flush, event-log loss/duplication/order, state-based goroutine-leak monitor, Go runtime deadlock detection (worker death = violation), plus runs of the race-built real binary on generated multi-table GeoPackages",
+         "'always returns' = returned on every schedule produced; wall-clock watchdog only inconclusive; distinct interleaving signatures reported",
+         "Go race detector + completion/leak/deadlock monitors"),
+ "C12": ("4 C12", "read-back oracle (plain sqlite3) over files written by the real TargetGeopackage for every (count, page size) of an enumerated grid plus random ones: rows, order, attributes, geometry, R-tree entries and boxes, recorded extent, schema, geometry registration, srs",
+         "hook H1's pure-Go ST_* functions stand in for SpatiaLite in the R-tree triggers",
+         "runtime monitor: read-back oracle over written files"),
+ "C13": ("4 C13", "end-to-end differential oracle: the real binary on generated GeoPackages vs snap.SnapPolygon called in-process; exact file set, tables, rows, geometry, copies, overwrite, failure modes; thorough also with the race-built binary",
+         "expectation defined by the library (as the statement says); hook H1 replaces SpatiaLite; source geometries taken as stored (GeoPackage blob round trip)",
+         "runtime monitor: binary-vs-library differential oracle"),
 }
+
 
 NOT_YET = {}
 
